@@ -6,21 +6,41 @@ LEVEL = "exploration"
 
 def check(run):
     cov = sweep34.explore(run, sweep34.C03_KINDS)
-    cov["rule"] = ("instances = (integral rep T) x (factor N/D from the structured grid FG(T)) for which "
-                   "coerce_in compiles (observed by compiling each alone); values = all values of 8/16-bit "
-                   "reps, breakpoint-complete windows for 32/64-bit (thorough: all 2^32 values for a "
-                   "branch-covering factor subset). Each value: if is_conversion_lossy is false, coerce_in / coerce_as (and .in/.as where the "
-                   "policy permits) are executed under clang UBSan (signed overflow, unsigned wrap, value-changing "
-                   "implicit narrowing) and compared with the exact 128-bit result. An instance is "
-                   "non-trivial when both lossy and non-lossy values were observed on it.")
+    cov["rule"] = ("instances = (integral rep T) x (factor N/D from the structured grid FG(T)): T = the 8 fixed-width aliases "
+                   "(full grid: 1..12 x 1..12, library ratios, values straddling the limits of T and of its promoted type, "
+                   "the branch boundaries den > p_lim/t_lim of Max/MinNonOverflowingValue with both neighbours, large-N-large-D "
+                   "corners, large primes, and coprime pairs of 3-prime / smooth numbers next to the limits) and the distinct "
+                   "integral types long long, unsigned long long, char, wchar_t, char16_t, char32_t (reduced branch-covering "
+                   "grid); source Meters -> anonymous Meters*D/N, plus 16 shaped instances per rep (QuantityMaker and symbol "
+                   "slots, prefixed / compound / powered library units, the identity and an equivalent-unit target). "
+                   "Compile domain: coerce_in/coerce_as and the three checkers are probed separately, each instance alone "
+                   "where it matters; a conversion that stops compiling inside the predicted domain, a checker that does not "
+                   "compile where the conversion does, or a sweep that does not compile is a violation. "
+                   "Values = all values of 8/16-bit reps; for 32/64-bit reps breakpoint-complete windows (incl. thresholds "
+                   "of alternative plausible computations), residue sweeps over every class mod D (D <= "
+                   "residue_sweep_max_denominator) at mid-range offsets, a fixed lattice (k*2^j+r, half-word patterns, "
+                   "k*10^j+r, runs of ones) over the whole range, and +-2 around the library's own thresholds (thorough: all "
+                   "2^32 values for a branch-covering factor subset). Each value: if is_conversion_lossy is false, coerce_in / "
+                   "coerce_as (and .in/.as where the policy permits) are executed under clang UBSan (signed overflow, unsigned "
+                   "wrap, value-changing implicit narrowing) and compared with the exact 128-bit result. Conversions of cleared "
+                   "values are also evaluated inside static_assert under all six compiler/standard configurations (UB met by "
+                   "the constant evaluator is an error). An instance is non-trivial when both lossy and non-lossy values were "
+                   "observed on it.")
     cov["exhaustive"] = True
     cov["exhaustive_note"] = ("exhaustive for every 8/16-bit instance (and 2^32 instances in thorough); "
-                              "32/64-bit instances are covered on the stated windows only")
+                              "32/64-bit instances are covered on the stated windows, residue sweeps and lattice only")
     run.cov.update(cov)
     run.assumptions += ["g++ 12 / clang 14 on x86-64 LP64 execute the compiled harness faithfully",
                         "harness/sweep.hh exact_scale (unsigned __int128) is the reference semantics",
                         "values strictly between Tmax and Tmax+1 (or Tmin-1 and Tmin) are a don't-care band "
-                        "for will_conversion_overflow; is_conversion_lossy must still be true there"]
+                        "for will_conversion_overflow; is_conversion_lossy must still be true there",
+                        "64-bit reps: no proof for all 2^64 values. The argument is bounded: the library's threshold constants "
+                        "equal the big-integer model (or lie in the don't-care band), the checker is evaluated on both sides of "
+                        "the model's and of the library's thresholds, on every residue class mod D and on a range-wide lattice; "
+                        "the same template code is swept over all 2^32 values for 32-bit reps in the thorough tier",
+                        "sanitizer events inside the checkers (e.g. libstdc++'s numeric_limits<char16_t>::max() converting -1) "
+                        "are recorded, not judged: C04 constrains the verdicts, C03 the conversion's own steps",
+                        "bool is not swept (every factor other than 1 is outside its domain)"]
 
 
 def replay(path):
